@@ -67,7 +67,8 @@ fn main() {
         }
         "det" => {
             let count: usize = m.get("count").map(|s| s.parse().unwrap()).unwrap_or(40);
-            let v = meta::det(seed, count, threads.min(8));
+            let proc: usize = m.get("proc").map(|s| s.parse().unwrap()).unwrap_or(0);
+            let v = meta::det(seed, count, threads.min(8), proc);
             write_out(&m, &v);
         }
         "perm" => {
